@@ -1,11 +1,12 @@
 import json, sys
 pid = sys.argv[1]
 n = sys.argv[2] if len(sys.argv) > 2 else "2"
+tag = sys.argv[3] if len(sys.argv) > 3 else ""
 for l in open('/verif/properties.jsonl'):
     p = json.loads(l)
     if p['id'] == pid:
         break
-wt = "/tmp/seed-%s" % pid.lower()
+wt = "/tmp/seed%s-%s" % (tag, pid.lower())
 print(f"""You are helping test a verification tool by playing the role of a developer who introduces a subtle regression. You work ONLY inside the scratch git worktree {wt} (a checkout of the Python project pediapress/mwlib; built C extensions (.so) are already copied in; Cython .pyx/.cc sources can NOT be rebuilt here, so change only .py files). Do not read or touch anything under /verif or /repo. Run Python as: `cd {wt} && PYTHONPATH={wt}/src /venv/bin/python ...`; run the existing tests as: `cd {wt} && PYTHONPATH={wt}/src /venv/bin/python -m pytest -q -p no:cacheprovider tests` (about 25 s; 702 pass; one collection error for test_odfwriter is pre-existing and expected).
 
 The property to break (a semantic property of mwlib that should always hold):
@@ -17,6 +18,6 @@ Anchored in: {', '.join(p['anchors']['files'])}
 Mechanisms meant to make it hold: {'; '.join((m.get('name') or '') + ' [' + (m.get('where') or '') + ']' for m in p['anchors']['mechanism'])}
 Observable at: {'; '.join(p['anchors'].get('observe_at') or [])}
 
-Task: produce {n} different, independent, realistic source changes (each a separate patch against the clean worktree) to the mwlib/qs code such that each (a) still imports/compiles, (b) passes the complete existing test suite exactly as before (same pass count), and (c) breaks the property — but only under something specific: a particular interleaving, a crash or fault at a particular point, a multi-step sequence of operations, an unusual input, or two cooperating sites that each look fine alone. Avoid changes that ordinary use would expose at once (do not simply delete the mechanism). Think of plausible refactorings / optimisations / "robustness improvements" a maintainer might make that are subtly wrong.
+Task: produce {n} different, independent, realistic source changes (each a separate patch against the clean worktree) to the mwlib/qs code such that each (a) still imports/compiles, (b) passes the complete existing test suite exactly as before (same pass count), and (c) breaks the property — but only under something specific: a particular interleaving, a crash or fault at a particular point, a multi-step sequence of operations, an unusual input, or two cooperating sites that each look fine alone. Avoid changes that ordinary use would expose at once (do not simply delete the mechanism). Think of plausible refactorings / optimisations / "robustness improvements" a maintainer might make that are subtly wrong. Prefer less obvious places: error handlers and secondary code paths, interactions between two functions or two calls, state kept between calls, boundary values, rarely used options — not the first thing one would think of.
 
-For each change i = 1..{n} write into /tmp/seed-{pid.lower()}-out/<i>/ : `patch.diff` (output of `git diff` in the worktree; must apply cleanly with `git apply` to a clean checkout), `demo.py` (a small standalone program, run as `PYTHONPATH=<tree>/src /venv/bin/python demo.py`, that exits 0 if the property holds on its scenario and 1 (printing what went wrong) if it is violated — it must exit 1 with the patch applied and 0 on the clean tree, be deterministic, run offline in under a minute, and confine any file-system activity to a temporary directory it creates), and `meta.json` with keys: property, summary, what_it_needs_to_manifest, files_changed, how_verified (the commands you ran and their results). After producing each patch reset the worktree with `git -C {wt} checkout -- .` before the next one. Verify (a), (b), (c) yourself for each patch, including that demo.py exits 0 on the clean tree. Final message: a short table of the changes and the verification results.""")
+For each change i = 1..{n} write into /tmp/seed{tag}-{pid.lower()}-out/<i>/ : `patch.diff` (output of `git diff` in the worktree; must apply cleanly with `git apply` to a clean checkout), `demo.py` (a small standalone program, run as `PYTHONPATH=<tree>/src /venv/bin/python demo.py`, that exits 0 if the property holds on its scenario and 1 (printing what went wrong) if it is violated — it must exit 1 with the patch applied and 0 on the clean tree, be deterministic, run offline in under a minute, and confine any file-system activity to a temporary directory it creates), and `meta.json` with keys: property, summary, what_it_needs_to_manifest, files_changed, how_verified (the commands you ran and their results). After producing each patch reset the worktree with `git -C {wt} checkout -- .` before the next one. Verify (a), (b), (c) yourself for each patch, including that demo.py exits 0 on the clean tree. Final message: a short table of the changes and the verification results.""")
